@@ -38,6 +38,7 @@ type Run struct {
 	FullEvery int // compare full dumps every n-th block (0/1 = every block); light dumps otherwise
 	nstep int
 	ForceFull bool
+	reported map[string]bool
 }
 
 func NewRun(s Setup) (*Run, error) {
@@ -160,6 +161,9 @@ func (r *Run) Step(b *BlockSpec) StepResult {
 		} else {
 			md = r.M.DumpLight()
 		}
+		if full && res.ImplOK && curReport != nil {
+			r.universalMonitors(b, dump, md)
+		}
 		res.Diff = FirstDiff(FilterDump(dump, r.Keep), FilterDump(md, r.Keep))
 		if res.Diff == "" && res.ImplClass != res.ModelClass {
 			res.Diff = fmt.Sprintf("outcome: impl=%s (%s) model=%s", res.ImplClass, msg, res.ModelClass)
@@ -167,6 +171,43 @@ func (r *Run) Step(b *BlockSpec) StepResult {
 	}
 	r.Steps = append(r.Steps, res)
 	return res
+}
+
+// curReport is the report of the scenario this process runs (one scenario per process).
+var curReport *Report
+
+// universalMonitors are specifications that need nothing but the implementation's own dump and
+// are therefore evaluated after every fully dumped block of every lock-step scenario.
+func (r *Run) universalMonitors(b *BlockSpec, dump, modelDump []string) {
+	L := ParseDump(dump)
+	// C06 / C07 / C17: a conversion placed in holding is considered by the first rated block
+	// after it (ApplyTransactionBatchesInHolding walks every height since the last rated one):
+	// once a later rated block is applied its history row must carry an outcome (height or
+	// reject code). The one exception the rules know is a batch whose conversion cannot be
+	// computed (overflow, no average under PIP-10): it is dropped without a status — the model
+	// leaves it pending too, and that case is reported under its own signature (a C17 matter).
+	modelPending := map[string]bool{}
+	for _, mb := range ParseDump(modelDump).B {
+		if mb.exec == 0 {
+			modelPending[mb.hash] = true
+		}
+	}
+	for _, po := range L.PassedOver() {
+		sig := "holding:passed-over"
+		if modelPending[po[0]] {
+			sig = "holding:unconvertible-stays-pending"
+		}
+		if r.reported == nil {
+			r.reported = map[string]bool{}
+		}
+		if r.reported[sig+po[0]] {
+			continue
+		}
+		r.reported[sig+po[0]] = true
+		path := WriteReplay(curReport.Property, curReport.Scenario+"-"+strings.TrimPrefix(sig, "holding:"), Replay{Property: curReport.Property, Scenario: curReport.Scenario, Seed: curReport.Seed, Setup: r.S,
+			What: fmt.Sprintf("height %d: %s", b.Height, po[1]), Blocks: ChainJSON(r.Chain)})
+		curReport.Violate(sig, fmt.Sprintf("height %d: %s", b.Height, po[1]), path)
+	}
 }
 
 // RecoverFrom handles a block the daemon could not apply: the daemon is restarted when it
